@@ -291,6 +291,17 @@ class Check(PropertyCheck):
                 return f"callback dispatched for frame id {cb[1]:#x}, which protocol version {v} does not define"
             if cb[1] != fid:
                 return f"callback for frame id {cb[1]:#x} dispatched from a frame carrying id {fid!r}"
+            # the frame must decode fully under that command's response schema (stated by an independent decoder over the
+            # flat wire layout; trailing bytes are tolerated as the library tolerates them)
+            import ezsptypes as et
+            rx = E.EZSP._BY_VERSION[v].COMMANDS[own[fid]][2]
+            try:
+                full = et.flat_decodes(et.items_of_schema(rx), data[3 if v == 4 else 5:])
+            except et.Unsupported:
+                full = None
+            if full is False:
+                return (f"callback {own[fid]} invoked for a frame whose payload ({len(data) - (3 if v == 4 else 5)} bytes) does not "
+                        f"decode fully under the schema of version {v}")
         if fid is not None and fid not in own and case["pending"] is not None:
             if a.get("p") is None or a["p"][0] != "ret":
                 return (f"a frame with id {fid:#x} (not defined by version {v}) made the pending command unanswerable: "
